@@ -362,6 +362,19 @@ def draw_line(rng, table):
                        "num-cancelled", "flush", "cancel-all"])
 
 
+def must_reject(line):
+    """An oracle that does not go through the code under test: a command line whose int argument
+    is not an int for Python itself must be answered with an error (never executed)."""
+    t = line.split(" ")
+    if len(t) == 2 and not t[1].startswith("-") \
+            and t[0] in ("pool-size", "start", "stop", "limit", "level"):
+        try:
+            int(t[1])
+        except ValueError:
+            return True
+    return False
+
+
 def job_c18(clsname, seed, count, two_sessions=False, replay_lines=None):
     import ctrlrun
     import gensurface
@@ -412,6 +425,10 @@ def job_c18(clsname, seed, count, two_sessions=False, replay_lines=None):
             except BaseException as e:    # noqa: BLE001
                 kind, out = "escape", repr(e)
             buf.seek(0); buf.truncate()
+            if kind == "ok" and must_reject(line) and line.split(" ")[0] in table:
+                fails.append({"what": "a value that is not an int was accepted for an int parameter "
+                                      "(the command would be executed)", "line": line, "index": i})
+                break
             if kind == "ok" and line.split(" ")[0] in ("until-closed", "gather-and-close"):
                 # a command that waits (legitimately answered only when the pool is closed) would
                 # block this session's remaining input: not sent
